@@ -19,6 +19,9 @@ struct Opts {
     /// ask the Lean spec for the braid order of every n-th merge (1 = all)
     merge_sample: usize,
     label: String,
+    /// anc-merge family: the graph holds merges with comparable parents, so the reference braid is
+    /// not meaningful; only oracle-independent observations are judged
+    anc: bool,
 }
 
 /// every appending command of anc*(heads) is in the committed `log` fact exactly once, after its
@@ -76,9 +79,37 @@ fn check_log(rec: &mut Recorder, lg: &LightGraph, heads: &[CmdId], rows: &[FactR
     }
 }
 
-fn check_braid(rec: &mut Recorder, lg: &LightGraph, heads: &[CmdId], evs: &[AuditEv], what: &str, label: &str, ask_model: bool) {
+/// oracle-independent part of C02 on one braid's rule calls: no command twice, no merge evaluated,
+/// no command before one of its evaluated ancestors
+fn check_calls_plain(rec: &mut Recorder, lg: &LightGraph, calls: &[CmdId], flags: &[bool], what: &str, label: &str) {
+    let mut pos: BTreeMap<CmdId, usize> = BTreeMap::new();
+    for (i, c) in calls.iter().enumerate() {
+        if pos.insert(*c, i).is_some() {
+            rec.oracle_fail(format!("{label}: {what}: command {} evaluated twice in one braid", short(*c)));
+        }
+        let is_merge = flags.get(i).copied().unwrap_or(false) || lg.og.cmds.get(c).map_or(false, |k| matches!(k.parent, Prior::Merge(..)));
+        if is_merge {
+            rec.oracle_fail(format!("{label}: {what}: merge command {} evaluated by the policy", short(*c)));
+        }
+    }
+    for (i, c) in calls.iter().enumerate() {
+        for d in &calls[i + 1..] {
+            if lg.og.is_anc(*d, *c) {
+                rec.oracle_fail(format!("{label}: {what}: command {} evaluated before its ancestor {} (braid rule calls {})", short(*c), short(*d), show_ids(calls)));
+                return;
+            }
+        }
+    }
+}
+
+fn check_braid(rec: &mut Recorder, lg: &LightGraph, heads: &[CmdId], evs: &[AuditEv], what: &str, label: &str, ask_model: bool, anc: bool) {
     let calls = braid_calls(evs);
     let flags = braid_merge_flags(evs);
+    if anc {
+        check_calls_plain(rec, lg, &calls, &flags, what, label);
+        rec.count_n("braid_calls", calls.len() as u64);
+        return;
+    }
     if std::env::var("VH_DEBUG").is_ok() && calls.len() > 100 {
         eprintln!("{label}: {what}: heads {} calls {}", heads.len(), calls.len());
     }
@@ -158,7 +189,7 @@ fn run_case(rec: &mut Recorder, sched: &Schedule, o: &Opts) {
                         merges += 1;
                         n_merge += 1;
                         let ask = o.merge_sample <= 1 || n_merge % o.merge_sample == 0;
-                        check_braid(rec, &lg, &[l.id, rr.id], &evs, &format!("merge {}", short(c.id)), label, ask);
+                        check_braid(rec, &lg, &[l.id, rr.id], &evs, &format!("merge {} of {}", short(c.id), show_ids(&[l.id, rr.id])), label, ask, o.anc);
                     } else if !braid_calls(&evs).is_empty() {
                         rec.oracle_fail(format!("{label}: adding the non-merge command {} evaluated a braid", short(c.id)));
                     }
@@ -166,7 +197,7 @@ fn run_case(rec: &mut Recorder, sched: &Schedule, o: &Opts) {
                 Err(e) => {
                     rec.count(&format!("add_err:{}", err_name(e)));
                     if let Prior::Merge(l, rr) = c.parent {
-                        if lg.og.cmds.contains_key(&l.id) && lg.og.cmds.contains_key(&rr.id) {
+                        if !o.anc && lg.og.cmds.contains_key(&l.id) && lg.og.cmds.contains_key(&rr.id) {
                             let want = lg.og.braid(&[l.id, rr.id]);
                             if !(matches!(e, ClientError::ParallelFinalize) && want.is_err()) {
                                 rec.oracle_fail(format!("{label}: merge {} failed with {} but the reference braid is {:?}", short(c.id), err_name(e), want.map(|x| show_ids(&x.1))));
@@ -192,7 +223,7 @@ fn run_case(rec: &mut Recorder, sched: &Schedule, o: &Opts) {
                 }
                 if changed && heads.len() >= 2 {
                     multi += 1;
-                    check_braid(rec, &lg, &heads, &evs, "commit", label, true);
+                    check_braid(rec, &lg, &heads, &evs, "commit", label, true, o.anc);
                 } else if !braid_calls(&evs).is_empty() {
                     rec.oracle_fail(format!("{label}: single-head commit evaluated a braid"));
                 }
@@ -214,11 +245,21 @@ fn run_case(rec: &mut Recorder, sched: &Schedule, o: &Opts) {
             Err(e) => {
                 rec.count(&format!("commit_err:{}", err_name(&e)));
                 let want = lg.og.braid(&lg.og.frontier());
-                if !(matches!(e, ClientError::ParallelFinalize) && want.is_err()) && !matches!(e, ClientError::StorageError(_)) {
+                if !o.anc && !(matches!(e, ClientError::ParallelFinalize) && want.is_err()) && !matches!(e, ClientError::StorageError(_)) {
                     rec.oracle_fail(format!("{label}: commit failed with {} but the reference braid is {:?}", err_name(&e), want.map(|x| show_ids(&x.1))));
                 }
                 lg.truncate(mark);
                 rec.line(format!("truncate {mark}"), "ok");
+            }
+        }
+    }
+    if o.anc {
+        // stored state of every committed command: its log fact lists anc*(command) once each, ancestors first
+        if let Ok(committed) = r.committed() {
+            for c in &committed {
+                if let Ok(rows) = r.facts_at(c.address()) {
+                    check_log(rec, &lg, &[c.id], &rows, &format!("{label}: stored state at {}", short(c.id)));
+                }
             }
         }
     }
@@ -240,6 +281,16 @@ fn run_case(rec: &mut Recorder, sched: &Schedule, o: &Opts) {
 }
 
 fn guarded(rec: &mut Recorder, sched: &Schedule, o: &Opts, case: usize) {
+    let before = rec.oracle_failures.len();
+    guarded_inner(rec, sched, o, case);
+    if std::env::var("VH_TRACE_FAILS").is_ok() {
+        for f in &rec.oracle_failures[before..] {
+            eprintln!("FAIL {}", f.what);
+        }
+    }
+}
+
+fn guarded_inner(rec: &mut Recorder, sched: &Schedule, o: &Opts, case: usize) {
     match vh::catch(std::panic::AssertUnwindSafe(|| run_case(rec, sched, o))) {
         Ok(()) => {}
         Err(p) => {
@@ -374,7 +425,7 @@ fn main() {
             }
             for sc in &scheds {
                 rec.begin_case();
-                let o = Opts { merge_sample: if n > 400 { 97 } else { 1 }, label: format!("replay{k}") };
+                let o = Opts { merge_sample: if n > 400 { 97 } else { 1 }, label: format!("replay{k}"), anc: std::env::var("VH_FAMILY").ok().as_deref() == Some("anc-merge") };
                 guarded(&mut rec, sc, &o, k);
             }
         }
@@ -396,11 +447,48 @@ fn main() {
         let cmds = realize(&d, salt(&args, 0));
         rec.begin_case();
         rec.count(&format!("shape:{spec}"));
-        let o = Opts { merge_sample: 97, label: format!("probe:{spec}") };
+        let o = Opts { merge_sample: 97, label: format!("probe:{spec}"), anc: false };
         let sched = make_schedule(&mut rng, &cmds, false, (cmds.len() as u64 / 3).max(8), false);
         guarded(&mut rec, &sched, &o, 0);
         rec.finish(args.seed, &args.tier);
         return;
+    }
+    // ---- anc-merge family: merges whose parents are comparable (deliverable by a peer, never made
+    // by an honest client).  Own random stream: the other families keep their seeds.
+    // VH_FAMILY=anc-merge runs only this family (exploration); VH_ANC_EQUAL=1 adds merges of a
+    // command with itself.
+    let only_anc = std::env::var("VH_FAMILY").ok().as_deref() == Some("anc-merge");
+    {
+        let mut arng = Rng::new(args.seed ^ 0xA11C_E5);
+        let equal = std::env::var("VH_ANC_EQUAL").is_ok();
+        let n = if only_anc { args.budget(400, 4000) } else { args.budget(25, 200) };
+        for acase in 0..n {
+            let p = DagParams {
+                max_nodes: arng.range(4, 20) as usize,
+                prios: arng.range(1, 3) as u32,
+                finalize_pct: *arng.pick(&[0, 0, 6]),
+                check_pct: 0,
+                allow_parallel_finalize: false,
+                merge_pct: *arng.pick(&[10, 25, 40]),
+                branch_pct: *arng.pick(&[20, 40, 60]),
+                ..DagParams::default()
+            };
+            let apct = *arng.pick(&[10, 20, 35]);
+            let (d, made) = gen_dag_anc(&mut arng, &p, apct, equal);
+            let cmds = realize(&d, salt(&args, 900_000 + acase));
+            rec.begin_case();
+            rec.count("shape:anc-merge");
+            rec.count_n("anc_merges_generated", made as u64);
+            let per_cmd = arng.chance(1, 3);
+            let o = Opts { merge_sample: 1, label: format!("c02-anc#{acase}"), anc: true };
+            let mb = *arng.pick(&[6, 6, 3, 30]);
+            let sched = make_schedule(&mut arng, &cmds, per_cmd, mb, false);
+            guarded(&mut rec, &sched, &o, 900_000 + acase);
+        }
+        if only_anc {
+            rec.finish(args.seed, &args.tier);
+            return;
+        }
     }
     // ---- random DAGs
     let cases = args.budget(150, 1500);
@@ -431,7 +519,7 @@ fn main() {
         if rec.cases() <= 2 {
             rec.sample(cmds.iter().map(cmd_line).collect::<Vec<_>>().join(" | "));
         }
-        let o = Opts { merge_sample: 1, label: format!("c02#{case}") };
+        let o = Opts { merge_sample: 1, label: format!("c02#{case}"), anc: false };
         let mb = *rng.pick(&[6, 6, 6, 30]);
         let sched = make_schedule(&mut rng, &cmds, per_cmd, mb, false);
         guarded(&mut rec, &sched, &o, case);
@@ -466,7 +554,7 @@ fn main() {
         rec.begin_case();
         rec.count(&format!("shape:{name}"));
         rec.count("mode:batched-trx");
-        let o = Opts { merge_sample: 97, label: format!("c02#{case}:{name}") };
+        let o = Opts { merge_sample: 97, label: format!("c02#{case}:{name}"), anc: false };
         let sched = make_schedule(&mut rng, &cmds, false, (cmds.len() as u64 / 6).max(8), false);
         guarded(&mut rec, &sched, &o, case);
         case += 1;
